@@ -126,6 +126,27 @@ def throughput_end_to_end(ctx, sim, evs, tidx):
     ctx.count("throughput-calls", len(calls))
 
 
+REQUEST_METRICS = ("latency", "service_time", "processing_time")
+
+
+def compare_records(ctx, cls, model_records, docs):
+    """the request records race control holds vs. the records the model derives for the samples in its store
+    (metric, client, task, operation, operation type, sample type), as multisets"""
+    got = sorted([d["name"], d["meta"].get("client_id"), d["task"], d["operation"], d["operation-type"], d["sample-type"] == "normal"]
+                 for d in docs if d["name"] in REQUEST_METRICS)
+    want = sorted(model_records)
+    if got != want:
+        import collections
+
+        cg, cw = collections.Counter(map(tuple, got)), collections.Counter(map(tuple, want))
+        missing, extra = sorted((cw - cg).items())[:4], sorted((cg - cw).items())[:4]
+        ctx.diff("request records at race control (metric, client, task, operation, type, normal)", {"missing": missing}, {"unexpected": extra})
+        ctx.fail(cls + ":records-differ", "the request records in race control's store are not those of the samples that reached it "
+                 "(one latency, service_time and processing_time per sample plus one service_time per dependent timing, with its labels)",
+                 {"records": len(want), "missing": missing}, {"records": len(got), "unexpected": extra})
+    ctx.count("records-compared", len(got))
+
+
 def run_sim(case):
     """a share of the races run with the real BenchmarkActor / BenchmarkCoordinator as race control (scenario['full_race'])"""
     sc = case["scenario"]
@@ -156,7 +177,14 @@ def run(ctx, case):
     evs = pipeline_events(sim)
     cap = sc.get("queue_size", 1 << 20)
     factor = sc.get("downsample", 1)
-    m = ctx.model("samples", "replay", {"cap": cap, "factor": factor, "events": [{k: v for k, v in e.items() if k not in ("tput", "tput_docs")} for e in evs]})
+    # what each accepted sample is, from the scenario (operation labels, sub-requests) and the sample as it was offered to the queue
+    # (client, task, sample type): the model derives the request records from it (`Samples.recordsOf`)
+    subs_of0 = {t["name"]: [n for st in t["subs"] for n in st] for t in spec.values() if t.get("subs")}
+    client_of = {sid: c for (c, _t, _a), sid in sim.sample_key.items()}
+    infos = [{"sid": sid, "client": client_of.get(sid, 0), "task": i["task"], "op": i["task"], "opType": "sim-composite" if i["task"] in subs_of0 else "sim",
+              "normal": bool(i["normal"]), "deps": [[n, "sim"] for n in subs_of0.get(i["task"], [])]} for sid, i in sim.sample_info.items()]
+    m = ctx.model("samples", "replay", {"cap": cap, "factor": factor, "infos": infos,
+                                        "events": [{k: v for k, v in e.items() if k not in ("tput", "tput_docs")} for e in evs]})
     throughput_end_to_end(ctx, sim, evs, tidx)
     tags = m.get("tags", [])
     cls = ("small-queue" if "queue_size" in sc else "") + ("+downsample" if factor > 1 else "") or "default"
@@ -165,6 +193,8 @@ def run(ctx, case):
     # ---------------- direct oracle: records in race control's store vs. the request log of the simulated cluster ----------------
     if res == "until":
         docs = sim.rc_docs
+        if "r" in m and m["r"].get("records") is not None:
+            compare_records(ctx, cls, m["r"]["records"], docs)
         subs_of = {t["name"]: [n for st in t["subs"] for n in st] for t in spec.values() if t.get("subs")}
         per, dep = {}, {}
         for d in docs:
@@ -263,12 +293,20 @@ def gen_direct(ctx):
             left -= b
             r = rng.random()
             if r < 0.45:
-                script.append(["ship", rng.randrange(workers)])
+                w = rng.randrange(workers)
+                script.append(["ship", w])
+                if rng.random() < 0.7:
+                    script.append(["deliver", w])  # otherwise the shipment stays in flight for a while
+            elif r < 0.55:
+                script.append(["deliver", rng.randrange(workers)])
             if r < 0.25:
                 script.append(["postprocess"])
             if r < 0.1:
                 script.append(["handover"])
-        yield {"n": n, "workers": workers, "cap": cap, "factor": factor, "script": script}
+        # what the requests are: plain, or composite with dependent timings; a warm-up prefix
+        kinds = rng.choice(["plain", "plain", "deps", "mixed"])
+        yield {"n": n, "workers": workers, "cap": cap, "factor": factor, "script": script, "kinds": kinds, "warmup": rng.choice([0, 0, n // 3, n]),
+               "kseed": rng.randrange(1 << 30)}
 
 
 def run_direct(ctx, case):
@@ -308,7 +346,20 @@ def run_direct(ctx, case):
     calc.calculate = observed
     by_key = {}
     accepted_total = dropped_total = 0
-    for step in list(case["script"]) + [["ship", w] for w in range(W)] + [["postprocess"], ["handover"]]:
+    import collections
+    import random as _random
+
+    krng = _random.Random(case.get("kseed", 0))
+    kinds, warm = case.get("kinds", "plain"), case.get("warmup", 0)
+    pending = {w: collections.deque() for w in range(W)}  # UpdateSamples messages in flight, FIFO per worker
+    handovers = collections.deque()  # mementos in flight to race control
+    infos = []
+    dep_total = [0]
+    key = lambda c, rel: by_key.get((c, driver.convert.seconds_to_ms(rel)), -1)
+    doc_key = lambda d: by_key.get((d["meta"]["client_id"], d["relative-time"]), -1)
+
+    def do(step):
+        nonlocal sid, accepted_total, dropped_total
         if step[0] == "requests":
             _, w, b = step
             q = workers[w].sampler
@@ -317,12 +368,22 @@ def run_direct(ctx, case):
                 before = q.q.qsize()
                 # unique (client, relative time) per sample: 1/1024 s apart, exactly representable
                 t = sid / 1024.0
-                sampler_add(q, task, w, metrics.SampleType.Normal, {}, 1000.0 + t, t, 0.5, 0.25, 0.125, None, 1, "ops", 0.25, None)
+                normal = sid > warm
+                deps = []
+                if kinds == "deps" or (kinds == "mixed" and krng.random() < 0.5):
+                    deps = [[f"sub{k}", krng.choice(["search", "bulk"])] for k in range(krng.randint(1, 3))]
+                dt = [{"dependent_timing": {"operation": o, "operation-type": ot, "absolute_time": 1000.0 + t, "request_start": t, "service_time": 0.0625}}
+                      for o, ot in deps] or None
+                sampler_add(q, task, w, metrics.SampleType.Normal if normal else metrics.SampleType.Warmup, {}, 1000.0 + t, t, 0.5, 0.25, 0.125, None, 1, "ops",
+                            0.25, None, dt)
                 acc = q.q.qsize() > before
                 accepted_total += acc
                 dropped_total += not acc
                 if acc:
+                    dep_total[0] += len(deps)
                     by_key[(w, driver.convert.seconds_to_ms(t))] = sid
+                    if small:
+                        infos.append({"sid": sid, "client": w, "task": "direct", "op": "direct", "opType": "sim", "normal": normal, "deps": deps})
                 if small:
                     evs.append({"e": "request", "w": w, "sid": sid, "obs": {"accepted": acc, "sid": sid}})
         elif step[0] == "ship":
@@ -332,36 +393,81 @@ def run_direct(ctx, case):
             got = driver.Worker.send_samples(workers[w])
             if len(got) != queued:
                 ctx.fail("direct:ship-incomplete", f"Worker.send_samples shipped {len(got)} of {queued} queued samples (n={case['n']})", queued, len(got))
-            for m in sent[n0:]:
-                ids = [by_key.get((x.client_id, driver.convert.seconds_to_ms(x.relative_time)), -1) for x in m.samples]
+            if small:
+                ids = [[key(x.client_id, x.relative_time) for x in m.samples] for m in sent[n0:]]
+                evs.append({"e": "ship", "w": w, "obs": {"shipped": ids[0] if len(ids) == 1 else None if not ids else ids}})
+            pending[w].extend(sent[n0:])
+        elif step[0] == "deliver":
+            w = step[1]
+            if pending[w]:
+                msg = pending[w].popleft()
+                n0 = len(drv.raw_samples)
+                driver.Driver.update_samples(drv, msg.samples)
                 if small:
-                    evs.append({"e": "ship", "w": w, "obs": {"shipped": ids}})
-                    evs.append({"e": "deliverU", "w": w, "obs": {"received": ids}})
-                driver.Driver.update_samples(drv, m.samples)
+                    evs.append({"e": "deliverU", "w": w, "obs": {"received": [key(x.client_id, x.relative_time) for x in drv.raw_samples[n0:]]}})
         elif step[0] == "postprocess":
             before = len(dstore.docs)
             fedbuf.clear()
             post_process(drv)
             if small:
-                stored = [by_key.get((d["meta"]["client_id"], d["relative-time"]), -1) for d in dstore.docs[before:] if d["name"] == "latency"]
+                stored = [doc_key(d) for d in dstore.docs[before:] if d["name"] == "latency"]
                 evs.append({"e": "postprocess", "obs": {"stored": stored, "fed": list(fedbuf)}})
         elif step[0] == "handover":
             memento = dstore.to_externalizable(clear=True)
-            before = len(rstore.docs)
             if small:
                 import pickle, zlib
-                handed = [by_key.get((d["meta"]["client_id"], d["relative-time"]), -1) for d in (pickle.loads(zlib.decompress(memento)) if memento else []) if d["name"] == "latency"]
+                handed = [doc_key(d) for d in (pickle.loads(zlib.decompress(memento)) if memento else []) if d["name"] == "latency"]
                 evs.append({"e": "handover", "obs": {"handed": handed}})
-            rstore.bulk_add(memento)
-            if small:
-                added = [by_key.get((d["meta"]["client_id"], d["relative-time"]), -1) for d in rstore.docs[before:] if d["name"] == "latency"]
-                evs.append({"e": "deliverR", "obs": {"added": added}})
+            handovers.append(memento)
+        elif step[0] == "receive":
+            if handovers:
+                before = len(rstore.docs)
+                rstore.bulk_add(handovers.popleft())
+                if small:
+                    evs.append({"e": "deliverR", "obs": {"added": [doc_key(d) for d in rstore.docs[before:] if d["name"] == "latency"]}})
+
+    for step in case["script"]:
+        do(step)
+        if step[0] == "handover" and krng.random() < 0.7:
+            do(["receive"])
+    model_args = lambda: {"cap": (1 << 20) if cap is None else cap, "factor": factor, "events": evs, "infos": infos}
     tags = []
     if small:
-        m = ctx.model("samples", "replay", {"cap": (1 << 20) if cap is None else cap, "factor": factor, "events": evs})
+        # the end of the race: the model's flush of the state reached so far (`Samples.flush`), executed on the real objects
+        m = ctx.model("samples", "replay", model_args())
+        if "diff" in m:
+            ctx.diff("pipeline replay (direct)", m["diff"].get("model"), {k: m["diff"].get(k) for k in ("at", "why", "event", "impl")})
+            ctx.sig(["direct", "diverged"])
+            return
+        for e in m["r"]["flush"]:
+            do({"ship": ["ship", e.get("w")], "deliverU": ["deliver", e.get("w")], "postprocess": ["postprocess"], "handover": ["handover"],
+                "deliverR": ["receive"]}[e["e"]])
+        ctx.count("flush-events-executed", len(m["r"]["flush"]))
+    else:
+        for w in range(W):
+            do(["ship", w])
+        for w in range(W):
+            while pending[w]:
+                do(["deliver", w])
+        do(["postprocess"])
+        do(["handover"])
+        while handovers:
+            do(["receive"])
+    # nothing may be left in flight in the real pipeline (flush_drains)
+    left = {"queues": sum(ws.sampler.q.qsize() for ws in workers), "shipments": sum(len(p) for p in pending.values()), "raw": len(drv.raw_samples),
+            "driver-store": sum(1 for d in dstore.docs if d["name"] in REQUEST_METRICS), "handovers": len(handovers)}
+    if any(left.values()):
+        ctx.fail("direct:flush-leaves-samples-in-flight", "after the flush (every worker ships, driver receives, post-processes, hands over, race control receives) "
+                 "the real pipeline still holds samples", 0, left)
+    if small:
+        m = ctx.model("samples", "replay", model_args())
         tags = m.get("tags", [])
         if "diff" in m:
             ctx.diff("pipeline replay (direct)", m["diff"].get("model"), {k: m["diff"].get(k) for k in ("at", "why", "event", "impl")})
+        elif m["r"]["in_flight"] != 0:
+            ctx.diff("model still has samples in flight after its own flush", 0, m["r"]["in_flight"])
+        elif m["r"].get("records") is not None:
+            compare_records(ctx, "direct", m["r"]["records"], rstore.docs)
     # oracle: every accepted sample has its three records at race control (down-sampling may remove some, nothing else does)
     counts = {"latency": 0, "service_time": 0, "processing_time": 0}
     for d in rstore.docs:
@@ -370,13 +476,13 @@ def run_direct(ctx, case):
     if cap is None and dropped_total:
         ctx.fail("direct:dropped-below-capacity", "samples were rejected although the queue (default capacity 2^20, as the Worker configures it) was never full", 0, dropped_total)
     if factor == 1:
-        if not (counts["latency"] == counts["service_time"] == counts["processing_time"] == accepted_total):
-            ctx.fail("direct:lost-without-cause", f"{accepted_total} accepted samples but records {counts} at race control (n={case['n']}, workers={W})", accepted_total, counts)
+        if not (counts["latency"] == counts["processing_time"] == accepted_total and counts["service_time"] == accepted_total + dep_total[0]):
+            ctx.fail("direct:lost-without-cause", f"{accepted_total} accepted samples with {dep_total[0]} dependent timings but records {counts} at race control (n={case['n']}, workers={W})", accepted_total, counts)
     elif counts["latency"] > accepted_total:
         ctx.fail("direct:too-many-records", "more records than accepted samples", accepted_total, counts)
     import math
     ctx.count("direct-requests", case["n"])
-    ctx.sig(["direct", sorted(tags), int(math.log2(case["n"])) // 2, cap is None, factor, W], nontrivial=case["n"] > 3)
+    ctx.sig(["direct", sorted(tags), int(math.log2(case["n"])) // 2, cap is None, factor, W, kinds, (warm > 0) + (warm >= case["n"])], nontrivial=case["n"] > 3)
 
 
 STREAMS = [
